@@ -140,6 +140,84 @@ def _elementwise_op(expr):
     return '+' if isinstance(op, ast.Add) else '-' if isinstance(op, ast.Sub) else None
 
 
+def _sig_side(x):
+    u = unparse(x)
+    if u in ('self.sisig()', 'self._sisig'):
+        return 'self'
+    if u.endswith('.sisig()') or u.endswith('._sisig'):
+        return 'other'
+    return '?'
+
+
+def _imperative_elementwise(fn, e):
+    """(op, why): the local list `e` is a fresh copy of self's signature to which a loop adds / subtracts other's exponents
+    position by position:   L = list(self.sisig());  for i, x in enumerate(other.sisig()): L[i] += x   (or -=, or += k * x, k = +-1)"""
+    if not isinstance(e, ast.Name):
+        return None, None
+    L = e.id
+    defs = [n for n in walk_shallow(fn) if isinstance(n, (ast.Assign, ast.AnnAssign)) and n.value is not None
+            and any(isinstance(t, ast.Name) and t.id == L for t in (n.targets if isinstance(n, ast.Assign) else [n.target]))]
+    if len(defs) != 1:
+        return None, None
+    v = defs[0].value
+    src = None
+    fresh = False
+    if isinstance(v, ast.Call) and unparse(v.func) in ('list',) and len(v.args) == 1:
+        src, fresh = v.args[0], True
+    elif isinstance(v, ast.Call) and isinstance(v.func, ast.Attribute) and v.func.attr == 'copy' and not v.args:
+        src, fresh = v.func.value, True
+    elif isinstance(v, ast.Subscript) and isinstance(v.slice, ast.Slice) and v.slice.lower is None and v.slice.upper is None and v.slice.step is None:
+        src, fresh = v.value, True
+    elif isinstance(v, ast.ListComp) and len(v.generators) == 1 and isinstance(v.elt, ast.Name) and unparse(v.generators[0].target) == v.elt.id \
+            and not v.generators[0].ifs:
+        src, fresh = v.generators[0].iter, True
+    else:
+        src = v
+    if _sig_side(src) != 'self':
+        return None, None
+    loops = [n for n in walk_shallow(fn) if isinstance(n, ast.For) and any(isinstance(x, ast.Subscript) and isinstance(x.value, ast.Name) and x.value.id == L
+                                                                            and isinstance(x.ctx, ast.Store) for b in n.body for x in ast.walk(b))]
+    if len(loops) != 1 or len(loops[0].body) != 1 or loops[0].orelse:
+        return None, None
+    lp = loops[0]
+    b = lp.body[0]
+    idx = elem = None
+    if isinstance(lp.iter, ast.Call) and unparse(lp.iter.func) == 'enumerate' and len(lp.iter.args) == 1 and isinstance(lp.target, ast.Tuple) \
+            and len(lp.target.elts) == 2 and _sig_side(lp.iter.args[0]) == 'other':
+        idx, elem = unparse(lp.target.elts[0]), unparse(lp.target.elts[1])
+    elif isinstance(lp.iter, ast.Call) and unparse(lp.iter.func) == 'range' and isinstance(lp.target, ast.Name):
+        a = [unparse(x) for x in lp.iter.args]
+        if a in ([f'len({L})'], ['9'], ['0', '9'], ['0', f'len({L})'], ['len(self.sisig())'], ['len(SI.SIUNITS)']):
+            idx = lp.target.id
+    if idx is None:
+        return None, None
+    if not (isinstance(b, ast.AugAssign) and isinstance(b.op, (ast.Add, ast.Sub)) and isinstance(b.target, ast.Subscript)
+            and unparse(b.target.value) == L and unparse(b.target.slice) == idx):
+        return None, None
+    sign = 1 if isinstance(b.op, ast.Add) else -1
+    val = b.value
+    if isinstance(val, ast.BinOp) and isinstance(val.op, ast.Mult):
+        from ..core import const_value as _cv
+        for k, x in ((val.left, val.right), (val.right, val.left)):
+            c = _cv(k)
+            if c in (1, -1):
+                sign *= c
+                val = x
+                break
+        else:
+            return None, None
+    if elem is not None:
+        if unparse(val) != elem:
+            return None, None
+    else:
+        if not (isinstance(val, ast.Subscript) and _sig_side(val.value) == 'other' and unparse(val.slice) == idx):
+            return None, None
+    if not fresh:
+        return None, (f'`{L} = {unparse(v)}` is the signature list of self itself, not a copy: the loop changes the exponents of the left operand in place '
+                      '(the operand has another unit after the operation)')
+    return ('+' if sign > 0 else '-'), None
+
+
 def _resolve_local(fn, e):
     """a local name with exactly one (single-name) assignment in fn stands for the assigned expression"""
     for _ in range(3):
@@ -217,9 +295,13 @@ def r162(ctx, ut):
         else:
             # SI: signature combination
             sig_assigns = [n for n in walk_shallow(fn) if isinstance(n, ast.Assign) and isinstance(n.targets[0], ast.Attribute) and n.targets[0].attr == '_sisig']
-            if len(sig_assigns) != 1 or _elementwise_op(_resolve_local(fn, sig_assigns[0].value)) != sigop:
+            got = _elementwise_op(_resolve_local(fn, sig_assigns[0].value)) if len(sig_assigns) == 1 else None
+            why = None
+            if got is None and len(sig_assigns) == 1:
+                got, why = _imperative_elementwise(fn, sig_assigns[0].value)
+            if got != sigop:
                 problems.append((sig_assigns[0] if sig_assigns else fn,
-                                 f'SI.{meth}: result signature is not the element-wise self {sigop} other of the operand signatures'))
+                                 f'SI.{meth}: result signature is not the element-wise self {sigop} other of the operand signatures' + (f': {why}' if why else '')))
         ok = not problems
         ctx.ob('R16.2', f'{cname}.{meth}', ok, sample=f'{cname}.{meth}: {n_ar} value computations with {binop.__name__}, table {table or "signature " + sigop}')
         for (node, msg) in problems:
@@ -283,6 +365,67 @@ def r164(ctx, ut):
                     where='SI.as_quantity')
 
 
+# --------------------------------------------------------------------------- delegation between sibling operators
+def expand_delegation(prog, cname, fn, depth=2):
+    """`def __ne__(self, o): return not self.__eq__(o)` (or `return not self == o`, `return self.__lt__(o)`...): a method whose whole
+    body hands the same operand to a sibling operator of the same class is that sibling's body with every returned value negated
+    (or unchanged).  Returns a synthetic FunctionDef for the decision-list / path-summary evaluators, or fn itself."""
+    import copy as _copy
+    OPS = {ast.Eq: '__eq__', ast.NotEq: '__ne__', ast.Lt: '__lt__', ast.LtE: '__le__', ast.Gt: '__gt__', ast.GtE: '__ge__'}
+    for _ in range(depth):
+        b = body_of(fn)
+        if len(b) != 1 or not isinstance(b[0], ast.Return) or b[0].value is None or len(fn.args.args) != 2:
+            return fn
+        other = fn.args.args[1].arg
+        v = b[0].value
+        neg = False
+        while isinstance(v, ast.UnaryOp) and isinstance(v.op, ast.Not):
+            v, neg = v.operand, not neg
+        target = None
+        if isinstance(v, ast.Call) and isinstance(v.func, ast.Attribute) and unparse(v.func.value) == 'self' and len(v.args) == 1 \
+                and unparse(v.args[0]) == other and not v.keywords and v.func.attr in OPS.values():
+            target = v.func.attr
+        elif isinstance(v, ast.Compare) and len(v.ops) == 1 and unparse(v.left) == 'self' and unparse(v.comparators[0]) == other and type(v.ops[0]) in OPS:
+            target = OPS[type(v.ops[0])]
+        if target is None or target == fn.name:
+            return fn
+        tf = prog.method(cname, target, inherited=False)
+        if tf is None or len(tf.args.args) != 2:
+            return fn
+        new = _copy.deepcopy(tf)
+        new.name = fn.name
+        to = tf.args.args[1].arg
+
+        class R(ast.NodeTransformer):
+            def visit_Name(self, n):
+                if n.id == to and to != other:
+                    return ast.copy_location(ast.Name(id=other, ctx=n.ctx), n)
+                return n
+
+            def visit_arg(self, n):
+                if n.arg == to:
+                    n.arg = other
+                return n
+
+            def visit_Return(self, n):
+                self.generic_visit(n)
+                if neg and n.value is not None:
+                    if isinstance(n.value, ast.Constant) and isinstance(n.value.value, bool):
+                        n.value = ast.copy_location(ast.Constant(value=not n.value.value), n.value)
+                    else:
+                        n.value = ast.copy_location(ast.UnaryOp(op=ast.Not(), operand=n.value), n.value)
+                return n
+
+            def visit_FunctionDef(self, n):
+                if n is new:
+                    self.generic_visit(n)
+                return n
+        new = R().visit(new)
+        ast.fix_missing_locations(new)
+        fn = new
+    return fn
+
+
 # --------------------------------------------------------------------------- R16.5
 def guard_env(cname, other, same_type, same_sig, is_quantity=None):
     rel_t = 'eq' if same_type else 'lt'
@@ -307,13 +450,25 @@ def r165(ctx, ut):
         combos = [(True, True), (False, True), (False, False)] if cname == 'Quantity' else list(itertools.product((True, False), repeat=2))
         tables = {}
         for meth in GUARDED + ('__eq__', '__ne__'):
-            fn = prog.method(cname, meth, inherited=False)
+            fn = expand_delegation(prog, cname, prog.method(cname, meth, inherited=False))
             other = fn.args.args[1].arg if len(fn.args.args) > 1 else 'other'
             row = {}
             for (st, ss) in combos:
-                ge = GuardEval(prog, cname, guard_env(cname, other, st, ss, True if cname == 'Quantity' else None))
-                r = eval_decision_list(body_of(fn), ge)
-                ctx.examined()
+                # the decision may not depend on the values: the outcome is taken for every relation of the two numbers
+                rs_ = []
+                for vrel in ('lt', 'eq', 'gt'):
+                    env_ = guard_env(cname, other, st, ss, True if cname == 'Quantity' else None)
+                    env_[('ord', 'float(self)', f'float({other})')] = vrel
+                    rs_.append(eval_decision_list(body_of(fn), GuardEval(prog, cname, env_)))
+                    ctx.examined()
+                if all(x == RAISE for x in rs_):
+                    r = RAISE
+                elif any(x == RAISE or x == AMBIG for x in rs_):
+                    r = AMBIG if not any(x == RAISE for x in rs_) else RAISE if all(x == RAISE for x in rs_) else AMBIG
+                elif all(x is rs_[0] or x == rs_[0] for x in rs_):
+                    r = rs_[0]
+                else:
+                    r = ('expr', None)            # admitted, the answer depends on the values (as it should)
                 row[(st, ss)] = r
             tables[meth] = row
             bad = []
@@ -340,13 +495,49 @@ def r165(ctx, ut):
 
 
 # --------------------------------------------------------------------------- R16.6
+def _cmp_by_cases(ctx, prog, cname, fn, other, opt):
+    """the comparison method, summarised path by path for float(self) <, ==, >, unordered (NaN) float(other): the returned
+    expression must evaluate to what `float(self) <op> float(other)` gives in that case (E10; a difference compared with zero is
+    read as the comparison of its operands only where IEEE arithmetic makes the two agree)"""
+    from ..pathsum import PathSum, Unsupported, _Arith
+    import copy as _copy
+    a, b = 'float(self)', f'float({other})'
+    want = {ast.Lt: {'lt'}, ast.LtE: {'lt', 'eq'}, ast.Gt: {'gt'}, ast.GtE: {'gt', 'eq'}, ast.Eq: {'eq'}, ast.NotEq: {'lt', 'gt', 'un'}}[opt]
+    for rel in ('lt', 'eq', 'gt', 'un'):
+        env = guard_env(cname, other, True, True)
+        env[('ord', a, b)] = rel
+        if rel == 'un':
+            env[('nan', a)] = True
+        try:
+            outs = PathSum(prog, cname, fn, env, assume_validated=False).run()
+        except Unsupported as e:
+            return False, f'not summarised ({e})'
+        ctx.examined()
+        if not outs:
+            return False, 'no path'
+        for o in outs:
+            if o.kind != 'return' or o.value is None:
+                return False, f'{ {"lt": "smaller", "eq": "equal", "gt": "greater", "un": "NaN"}[rel] } operand: the method ends with {o.kind}'
+            if any(isinstance(bb, str) for (_c, bb) in o.conds):
+                return False, f'the result depends on a condition the operands do not decide'
+            v = _Arith(env).visit(_copy.deepcopy(o.value))
+            ast.fix_missing_locations(v)
+            got = GuardEval(prog, cname, env).ev(v) if not isinstance(v, ast.Constant) else bool(v.value)
+            if got is None or got != (rel in want):
+                names = {'lt': 'float(self) < float(other)', 'eq': 'float(self) == float(other) (including two infinities of the same sign)',
+                         'gt': 'float(self) > float(other)', 'un': 'a NaN operand'}
+                return False, (f'for {names[rel]} it returns `{unparse(o.value)}`, which is ' +
+                               ('not decided by the operands (inf - inf is NaN)' if got is None else f'{got}') + f'; required {rel in want}')
+    return True, ''
+
+
 def r166(ctx, ut):
     prog = ctx.prog
     ctx.rule('R16.6', 'same-type + - abs neg and the comparisons use only float(self)/float(other) and keep the left operand unit via _val')
     for cname in ('Quantity', 'SI'):
         ci = prog.cls(cname)
         for meth, opt in list(ARITH_OP.items()) + list(CMP_OP.items()):
-            fn = prog.method(cname, meth, inherited=False)
+            fn = expand_delegation(prog, cname, prog.method(cname, meth, inherited=False))
             other = fn.args.args[1].arg
             ge = GuardEval(prog, cname, guard_env(cname, other, True, True))
             r = eval_decision_list(body_of(fn), ge)
@@ -365,11 +556,14 @@ def r166(ctx, ut):
                 rets = [n for n in walk_shallow(fn) if isinstance(n, ast.Return) and isinstance(n.value, ast.Compare)]
                 ok = any(len(e.value.ops) == 1 and isinstance(e.value.ops[0], opt) and _is_float_of(e.value.left, 'self')
                          and _is_float_of(e.value.comparators[0], other) for e in rets)
-            ctx.ob('R16.6', f'{cname}.{meth}', ok, sample=f'{cname}.{meth} (compatible operands) -> {short(r[1]) if isinstance(r, tuple) else r}')
+            detail = ''
+            if not ok and meth in CMP_OP:
+                ok, detail = _cmp_by_cases(ctx, prog, cname, fn, other, opt)
+            ctx.ob('R16.6', f'{cname}.{meth}', ok, sample=f'{cname}.{meth} (compatible operands) -> {short(r[1]) if isinstance(r, tuple) and r[1] is not None else r}')
             if not ok:
                 ctx.finding('R16.6', f'{cname}.{meth}', ci, fn,
                             f'{cname}.{meth} on compatible operands is not float(self) {opt.__name__} float({other})'
-                            + (' wrapped by self._val(...)' if meth in ARITH_OP else ''), where=f'{cname}.{meth}')
+                            + (' wrapped by self._val(...)' if meth in ARITH_OP else '') + (f': {detail}' if detail else ''), where=f'{cname}.{meth}')
         for meth, shape in (('__abs__', 'self._val(abs(float(self)))'), ('__neg__', 'self._val(-float(self))')):
             fn = prog.method(cname, meth, inherited=False)
             rs = [n for n in walk_shallow(fn) if isinstance(n, ast.Return)]
